@@ -20,15 +20,17 @@ STREAM_FES = ("pandas", "numpy", "netcdf_obj", "netcdf_path", "xarray_obj", "xar
 
 
 def generate(rng, tier="quick"):
-    tbl = wl.gen_table(rng, max_n=24 if tier == "quick" else 40, no_time_p=0.06, unsorted_p=0.08)
+    tbl = wl.gen_table(rng, max_n=24 if tier == "quick" else 40, no_time_p=0.06, unsorted_p=0.08, frac_p=0.1, nat_p=0.06)
     if rng.chance(0.12):
         tbl["xr_time"] = "var"
     cfg = wl.gen_config(rng, tbl, max_ctx=4, max_tests=3)
     single = len(tbl["cols"]) == 1 and rng.chance(0.3)
     pool = STREAM_FES
-    if tbl.get("unsorted"):
-        # label slices need a monotonic index: XarrayStream is not given rows out of chronological order
+    if tbl.get("unsorted") or tbl.get("nat"):
+        # label slices need a monotonic index: XarrayStream is not given rows out of chronological order / without a time
         pool = tuple(f for f in STREAM_FES if not f.startswith("xarray"))
+    if tbl.get("no_files"):
+        pool = tuple(f for f in pool if not f.endswith("_path"))
     fes = rng.subset(pool, 0.5, at_least=2)
     if len(tbl["cols"]) == 1 and rng.chance(0.6):
         fes.append("qcconfig")
@@ -60,7 +62,14 @@ def generate(rng, tier="quick"):
         scn["alt_on"] = rng.subset([f for f in fes if f != "qcconfig"], 0.6, at_least=1)
     if rng.chance(0.2):
         scn["twin_on"] = rng.subset([f for f in fes if f != "qcconfig"], 0.5, at_least=1)
-    sids = {e["sid"] for c in cfg["contexts"] + (scn.get("alt_config") or {"contexts": []})["contexts"] for e in c["entries"]}
+    if not scn["share_config"] and rng.chance(0.12):
+        # run, Config.add(more), run again on the same Config object
+        cands = [f for f in fes if f != "qcconfig" and f not in scn.get("twin_on", [])]
+        if cands:
+            extra = wl.gen_config(rng, tbl, max_ctx=2, max_tests=2)
+            extra["carrier"], extra["build"], extra["share_document"], extra["layout"] = "dict", "direct", False, "contexts"
+            scn["add_after_run"] = {"config": extra, "on": rng.subset(cands, 0.6, at_least=1)}
+    sids = {e["sid"] for c in cfg["contexts"] + (scn.get("alt_config") or {"contexts": []})["contexts"] + (scn.get("add_after_run") or {"config": {"contexts": []}})["config"]["contexts"] for e in c["entries"]}
     if single and sids <= set(tbl["cols"]):
         # NumpyStream given one bare array instead of a dict of arrays (it then serves every stream id,
         # so only when the config names no other stream)
@@ -69,6 +78,9 @@ def generate(rng, tier="quick"):
         if fe == "qcconfig":
             continue
         x = rng.random()
+        if fe in (scn.get("add_after_run") or {"on": []})["on"]:
+            scn["reruns"].append(fe)
+            continue
         if x < 0.2:
             scn["abandon"].append({"task": fe, "after_yields": rng.randint(1, 3), "restart": True})
         elif x < 0.4:
@@ -84,7 +96,7 @@ def classify_subset(item_mask, model_mask, window, times, scn, fe):
         return "subset-shape"
     extra = im & ~model_mask
     missing = model_mask & ~im
-    t = np.asarray(times, dtype="int64")
+    t = np.array([np.nan if x is None else x for x in times], dtype="float64")
     if fe.startswith("xarray") and scn["table"].get("xr_time") == "var" and im.all() and not model_mask.all():
         return "window-ignored-time-not-coordinate"
     if extra.any() and not missing.any():
@@ -105,7 +117,7 @@ def execute(scn):
     seams.register_sim_functions()
     del seams.PROBE_LOG[:]
     tbl, cfg = scn["table"], scn["config"]
-    times = tbl["times"]
+    times = pl.row_times(tbl)
     arrays = pl.table_arrays(tbl)
     V = []
     stats = {"probes": {}, "faults": {}, "compared_yields": 0, "probe_checks": 0}
@@ -124,7 +136,9 @@ def execute(scn):
     exps = {"main": rp.annotate_expected(scn, arrays)}
     if scn.get("alt_config"):
         exps["alt"] = rp.annotate_expected(scn, arrays, scn["alt_config"])
-    for e in exps["main"] + exps.get("alt", []):
+    if scn.get("add_after_run"):
+        exps["added"] = rp.annotate_expected(scn, arrays, dict(cfg, contexts=cfg["contexts"] + scn["add_after_run"]["config"]["contexts"]))
+    for e in exps["main"] + exps.get("alt", []) + exps.get("added", []):
         w = e["window"]
         if w and times:
             if w.get("ending") is not None and w["ending"] in times:
@@ -147,6 +161,10 @@ def execute(scn):
         bump("source_without_time_axis")
     if tbl.get("unsorted"):
         bump("rows_not_chronological")
+    if tbl.get("nat"):
+        bump("rows_without_time_NaT")
+    if tbl.get("frac_ms"):
+        bump("sub_second_times")
     reps = rp.build_replicas(scn, shared)
     sch = rp.run_replicas(scn, reps)
     if sch.timeout:
@@ -157,6 +175,9 @@ def execute(scn):
     for r in reps:
         fe = r.frontend
         exp = exps[r.which]
+        if getattr(r, "added", False):
+            exp = exps["added"]  # the final run happened after Config.add(...)
+            bump("config_add_between_runs")
         if r.which == "alt":
             bump("alt_config_on_same_stream")
         if r.name.endswith("+twin"):
@@ -175,6 +196,8 @@ def execute(scn):
             V.append(violation(PROP, "run", fe, "step-bound", f"{t.steps} steps for {len(exp)} configured calls"))
         final_desc = [rp.describe_item(i) for i, _ in ys]
         for kind, part in t.history[:-1]:
+            if getattr(r, "added", False):
+                break  # the earlier run was of the smaller config
             pd_ = [rp.describe_item(i) for i, _ in part]
             if pd_ != final_desc[: len(pd_)]:
                 V.append(violation(PROP, "e", fe, "rerun-differs", f"{kind} incarnation differs from the final run"))
@@ -249,7 +272,7 @@ def execute(scn):
                         gotv = p[name]
                         if _vals(gotv) != _vals(wantv):
                             V.append(violation(PROP, "c", fe, f"probe-{name}", f"{label}: received {gotv} expected {wantv}"))
-        if not tainted and r.which == "main" and not r.name.endswith("+twin"):
+        if not tainted and r.which == "main" and not r.name.endswith("+twin") and not getattr(r, "added", False):
             try:
                 from ioos_qc.results import collect_results
 
@@ -282,7 +305,7 @@ def _vals(j):
 
 def check_qcconfig(scn, ys, exp, V, stats, bump):
     tbl = scn["table"]
-    times = tbl["times"]
+    times = pl.row_times(tbl)
     sid = scn.get("qc_sid") or next(iter(tbl["cols"]))
     got = rp.dict_results_json(ys[0][0][1])
     per_key = {}
